@@ -4122,3 +4122,51 @@ def localkey_with(i, fr, st, pc, a, t, fn, r):
 TABLE.update({
     "std::thread::LocalKey::<T>::with": localkey_with,
 })
+
+
+def _int_bitop(op):
+    def f(i, fr, st, pc, a, t, fn, r):
+        """`<uN as BitAnd>::bitand` etc. used as a function value (`zip_words(a, b, BitAnd::bitand)`): the MIR operator"""
+        x, y = a[0], a[1]
+        if isinstance(x, Ptr):
+            x = i.read_ptr(st, x)
+        if isinstance(y, Ptr):
+            y = i.read_ptr(st, y)
+        if not (isinstance(x, W) and isinstance(y, W)):
+            raise Undecided("%s on %r, %r" % (fn.get("path"), x, y))
+        return _ret(i, st, pc, i.binop(op, x, y, fr))
+    return f
+
+
+TABLE.update({
+    "std::ops::BitAnd::bitand": _int_bitop("BitAnd"),
+    "std::ops::BitOr::bitor": _int_bitop("BitOr"),
+    "std::ops::BitXor::bitxor": _int_bitop("BitXor"),
+})
+
+
+def option_get_or_insert_with(i, fr, st, pc, a, t, fn, r):
+    """Option::get_or_insert_with(&mut self, f) / get_or_insert(&mut self, v): &mut payload, filled by f() when None"""
+    p = a[0]
+    o = i.read_ptr(st, p)
+    if not (isinstance(p, Ptr) and isinstance(o, Agg) and o.key == OPTION and p.sl is None):
+        raise Undecided("get_or_insert_with on %r" % (o,))
+    if o.variant == 1:
+        return _ret(i, st, pc, Ptr(p.cell, p.path + (0,)))
+    if fn["name"] == "get_or_insert":
+        i.write_ptr(st, p, some(a[1]))
+        return _ret(i, st, pc, Ptr(p.cell, p.path + (0,)))
+    res = []
+    for oc in call_closure(i, fr, st, pc, a[1], []):
+        if oc.kind == "return":
+            i.write_ptr(oc.state, p, some(oc.value))
+            res.append(Outcome("return", oc.state, oc.pc, Ptr(p.cell, p.path + (0,))))
+        else:
+            res.append(oc)
+    return res
+
+
+TABLE.update({
+    "std::option::Option::<T>::get_or_insert_with": option_get_or_insert_with,
+    "std::option::Option::<T>::get_or_insert": option_get_or_insert_with,
+})
